@@ -754,7 +754,7 @@ func execConn(in KV) string {
 		}
 	}
 	out := fmt.Sprintf("out=%s hs=%s rd=%s srv=%s hs2=%s hit=%d changed=%d otype=%s mtype=%s v13=%d hv=%d post=%d stage=%s alloc=%s decl=%d allocge=%d m=%s",
-		res.Out, connCls(res.HS), joinList(mapStr(res.Reads, connCls)), srvCls(res.Srv), connCls(hs2), bi(hit), changed, ot, mt, v13, hv, post, stageOf(res.HS, res.Reads), allocClass(alloc), decl, allocge, mh)
+		res.Out, connCls(res.HS), joinList(mapStr_c33(res.Reads, connCls)), srvCls(res.Srv), connCls(hs2), bi(hit), changed, ot, mt, v13, hv, post, stageOf(res.HS, res.Reads), allocClass(alloc), decl, allocge, mh)
 	if res.Out == "panic" {
 		out += " msg=" + res.PanicAt
 	}
@@ -915,7 +915,7 @@ func execRec(in KV) string {
 		vers = fmt.Sprintf("%04x", res.U.ConnectionState().Version)
 	}
 	_ = vers
-	out := fmt.Sprintf("out=%s hs=%s rd=%s sv=%s stage=%s alloc=%s", res.Out, recCls(res.HS), joinList(mapStr(res.Reads, recCls)), serverHelloVersion(res.SrvWire), stageOf(res.HS, res.Reads), allocClass(alloc))
+	out := fmt.Sprintf("out=%s hs=%s rd=%s sv=%s stage=%s alloc=%s", res.Out, recCls(res.HS), joinList(mapStr_c33(res.Reads, recCls)), serverHelloVersion(res.SrvWire), stageOf(res.HS, res.Reads), allocClass(alloc))
 	if res.Out == "panic" {
 		out += " msg=" + res.PanicAt
 	}
@@ -951,7 +951,7 @@ func serverHelloVersion(wire []byte) string {
 	return "12"
 }
 
-func mapStr(xs []string, f func(string) string) []string {
+func mapStr_c33(xs []string, f func(string) string) []string {
 	out := make([]string, len(xs))
 	for i, x := range xs {
 		out[i] = f(x)
@@ -1184,14 +1184,14 @@ func hrrSpec(n int, withCookie bool) *tls.ClientHelloSpec {
 	}
 }
 
-func genHRR(r *Rng, i int, tier string) string {
+func genHRR_c33(r *Rng, i int, tier string) string {
 	n := 1 + i%10
 	pre := r.Intn(6) == 0
 	return fmt.Sprintf("n=%d cookie=%d pre=%d real=%d", n, Pick(r, []int{1, 8, 32, 300}), bi(pre), bi(!pre && n >= 4 && r.Bool()))
 }
 
-// extTypes lists the extension types of a ClientHello message in order.
-func extTypes(ch []byte) []int {
+// extTypes_c33 lists the extension types of a ClientHello message in order.
+func extTypes_c33(ch []byte) []int {
 	if len(ch) < 4+2+32+1 {
 		return nil
 	}
@@ -1228,7 +1228,7 @@ func extTypes(ch []byte) []int {
 	return out
 }
 
-func execHRR(in KV) string {
+func execHRR_c33(in KV) string {
 	warmUp()
 	n := in.Int("n")
 	cookieLen := in.Int("cookie")
@@ -1297,12 +1297,12 @@ func execHRR(in KV) string {
 	pos := -1
 	var t1, t2 []int
 	if len(hellos) > 0 {
-		t1 = extTypes(hellos[0])
-		e1 = intsStr(t1)
+		t1 = extTypes_c33(hellos[0])
+		e1 = intsStr_c33(t1)
 	}
 	if len(hellos) > 1 {
-		t2 = extTypes(hellos[1])
-		e2 = intsStr(t2)
+		t2 = extTypes_c33(hellos[1])
+		e2 = intsStr_c33(t2)
 		for i, t := range t2 {
 			if t == 44 {
 				pos = i
@@ -1333,7 +1333,7 @@ func hrrCls(c string) string {
 	return "err"
 }
 
-func intsStr(xs []int) string {
+func intsStr_c33(xs []int) string {
 	ss := make([]string, len(xs))
 	for i, x := range xs {
 		ss[i] = strconv.Itoa(x)
@@ -1349,5 +1349,5 @@ func init() {
 	register(&Family{Name: "c33_conn", Gen: genConn, Exec: execConn, Timeout: 30 * time.Second})
 	register(&Family{Name: "c33_rec", Gen: genRec, Exec: execRec, Timeout: 30 * time.Second})
 	register(&Family{Name: "c33_loop", Gen: genLoop, Exec: execLoop, Timeout: 30 * time.Second})
-	register(&Family{Name: "c33_hrr", Gen: genHRR, Exec: execHRR, Timeout: 30 * time.Second})
+	register(&Family{Name: "c33_hrr", Gen: genHRR_c33, Exec: execHRR_c33, Timeout: 30 * time.Second})
 }
